@@ -50,7 +50,7 @@ FNewWriterFail ==
 FWaitFail ==
   /\ Ev.ev = "wait_merges" /\ ~Ev.ok /\ Ev.err # "nowriter" /\ faultSeen /\ wopen
   /\ ObsIs(Ev.obs, commd)
-  /\ wopen' = FALSE /\ pend' = commd /\ dirty' = FALSE
+  /\ wopen' = FALSE /\ pend' = commd /\ dirty' = Clean
   /\ UNCHANGED <<commd, lo, metaop, payload, wCreated, sorted, kf, faultSeen>>
 
 FGcFail ==
